@@ -48,11 +48,13 @@ ASSUMPTIONS = [
 ]
 REQUIRED_COUNTERS = {
     "quick": {"lg_map_closed_form_compared": 140, "lg_map_optim_compared": 90, "ml_wls_compared": 90,
-              "direct_mean_compared": 120, "direct_cov_compared": 120, "neighbourhood_points_probed": 40000,
-              "nl_estimates_probed": 130, "gradient_norm_checked": 200, "solver_result_passthrough_checked": 300},
-    "thorough": {"lg_map_closed_form_compared": 900, "lg_map_optim_compared": 500, "ml_wls_compared": 500,
-                 "direct_mean_compared": 700, "direct_cov_compared": 700, "neighbourhood_points_probed": 250000,
-                 "nl_estimates_probed": 800, "gradient_norm_checked": 1200, "solver_result_passthrough_checked": 1800},
+              "ml_underdetermined_compared": 40, "direct_mean_compared": 120, "direct_cov_compared": 120,
+              "neighbourhood_points_probed": 40000, "nl_estimates_probed": 130, "gradient_norm_checked": 200,
+              "solver_result_passthrough_checked": 300},
+    "thorough": {"lg_map_closed_form_compared": 1300, "lg_map_optim_compared": 700, "ml_wls_compared": 850,
+                 "ml_underdetermined_compared": 340, "direct_mean_compared": 1200, "direct_cov_compared": 1200,
+                 "neighbourhood_points_probed": 450000, "nl_estimates_probed": 1100, "gradient_norm_checked": 1900,
+                 "solver_result_passthrough_checked": 2700},
 }
 BUDGET_S = {"quick": 240.0, "thorough": 1500.0}
 
@@ -161,7 +163,7 @@ def _lg_case(rng, tier, i, specs_p, specs_e, models):
 
 def cases(tier, seed):
     rng = core.rng_for(seed, PROPERTY, tier)
-    n_lg, n_nl = (800, 300) if tier == "quick" else (5000, 1800)
+    n_lg, n_nl = (800, 300) if tier == "quick" else (7500, 2500)
     specs = [(f, s) for f in R.FORMS for s in R.SHAPES]
     def blocks(items, total):        # every block of len(items) cases covers all values, in a fresh random order
         seq = []
